@@ -20,6 +20,9 @@ CHECKS = {
     "C05": ("exploration", "runtime monitoring: every emitted font walked by an independent container walker + full read-fonts traversal + cross-reference checker",
             "Every font a broad workload (corpus + generator families x option sets) produces is checked from its bytes alone: directory order/offsets/padding/checksums/checkSumAdjustment, required tables, complete recursive traversal, glyph-count agreement, every glyph/lookup/feature/name/region/axis reference in range, acyclic component graph within maxp.",
             "read-fonts is the trusted independent parser; device offsets of value records nested in class records are excluded from the generic traversal (resolved against the wrong base by read-fonts).", "DESIGN.md §5 C05"),
+    "C15": ("fault_enumeration", "runtime monitoring under fault injection: structural source mutators + exhaustive component-cycle shapes, each run as an rlimited fontc process; exit-status oracle + C05 walker",
+            "All component-cycle shapes (length 1-4 x scaled x non-export member x used from outside) x 3 option sets are enumerated exhaustively; FEA include loops and sampled structural mutants (truncation, dropped/duplicated/swapped lines and blocks, extreme numbers, byte flips, empty/missing files, token soup) of 23 corpus seeds follow. Verdict per case: never a signal, never the CPU limit, exit!=0 => no font, exit 0 => font passes the C05 walker.",
+            "Termination is restated as a 60 CPU-second bound (>400x normal cost); RLIMIT_AS 8 GiB; exit 101 (main-thread panic with message, no font) is counted but not a violation.", "DESIGN.md §5 C15"),
 }
 
 NOT_YET = {}
